@@ -627,7 +627,8 @@ class NR1dNsMinimizerImpl(
                     1: The minimization did NOT converge within self.max_steps
                        number of steps
                     2: The minimization did NOT converge, because the
-                       Newton-Raphson step is not a number.
+                       Newton-Raphson step or the function value is not a
+                       number.
 
             warnreason: str
                 The description for the set warn flag.
@@ -718,6 +719,14 @@ class NR1dNsMinimizerImpl(
         # in which case function value is already known.
         if not at_boundary:
             (f, fprime, fprimeprime) = func(x, *func_args)
+
+        # A function value that is not a number is not a minimum. The fit is
+        # considered NOT converged.
+        if np.isnan(f):
+            status['warnflag'] = 2
+            status['warnreason'] = (
+                'The function value is not a number. '
+                'NR optimization did not converge.')
 
         if niter == max_steps:
             status['warnflag'] = 1
@@ -900,7 +909,10 @@ class NRNsScan2dMinimizerImpl(
             (xmin, fmin, status) = super().minimize(
                 initials, bounds, func, func_args, **kwargs)
             niter_total += status['niter']
-            if (best_fmin is None) or (fmin < best_fmin):
+            # A best function value that is not a number gets replaced by the
+            # function value of any later scan step.
+            if (best_fmin is None) or np.isnan(best_fmin) or\
+               (fmin < best_fmin):
                 best_xmin = xmin
                 best_fmin = fmin
                 best_status = status
